@@ -70,6 +70,8 @@ func main() {
 	switch *mode {
 	case "c10":
 		runC10(res)
+	case "c18":
+		runC18(res)
 	default:
 		fmt.Fprintln(os.Stderr, "unknown mode", *mode)
 		os.Exit(2)
